@@ -76,6 +76,7 @@ def run_c08(tier):
     pins = pin_apis()
     mods = modules_by_key()
     n_payload = 0
+    n_classes_checked = 0
     for (api, ver, typ), (mod, classes) in sorted(mods.items()):
         if typ not in ("request", "response"):
             continue
@@ -96,6 +97,7 @@ def run_c08(tier):
         hmod, hname, hver = expected_header(typ, key, ver, flexible)
         for cls in reachable(top):
             acc.add("evaluations")
+            n_classes_checked += 1
             case = {"class": f"{cls.__module__}:{cls.__qualname__}", "api_key": key, "version": ver, "type": typ,
                     "flexible_per_pinned_table": flexible}
             h = cls.__dict__.get("__header_schema__", getattr(cls, "__header_schema__", None))
@@ -153,7 +155,7 @@ def run_c08(tier):
     run.merge(acc.result())
     c = run.cov
     c["payload_classes"] = n_payload
-    c["distinct_nontrivial"] = c["evaluations"]
+    c["distinct_nontrivial"] = n_classes_checked + n_payload  # distinct classes whose header was judged + distinct pairings
     c["rule"] = ("every request and response module on disk: the top-level payload class and every class reachable "
                  "from it through field types; expected header from the independently restated Kafka rule applied to "
                  "the pinned API table (key, version range, first flexible version), not to the class's own constants; "
@@ -446,7 +448,7 @@ def run_c14(tier):
     run.merge(acc.result())
     c = run.cov
     c["modules"] = len(mods)
-    c["distinct_nontrivial"] = c["evaluations"]
+    c["distinct_nontrivial"] = len(mods) + len(fam) + len(keys)  # distinct modules, families and api keys judged
     c["rule"] = ("every version module on disk (module path <-> top-level class name/type/version; every class defined in or "
                  "reachable from the module is defined there and carries the module's version, flexibility, api key and header "
                  "schema) and every (API, type) family (contiguous versions, monotone flexibility, constant and unique api key, "
